@@ -76,6 +76,9 @@ type childEvent struct {
 	Done  *itemResult `json:"done,omitempty"`
 	Idx   int         `json:"idx,omitempty"`
 	Bye   bool        `json:"bye,omitempty"`
+	// Recycle: the child leaves voluntarily after an expensive script (so that anything the call may have left
+	// running is not billed to the next script); the parent continues with a fresh child.
+	Recycle bool `json:"recycle,omitempty"`
 }
 
 func selfCPUms() (cpu int64, maxrssKB int64) {
@@ -140,6 +143,10 @@ func childMain() {
 			marker("end", j.Base+i)
 		}
 		emit(childEvent{Done: &r, Idx: i})
+		if r.CPUms > 800 && i < len(j.Items)-1 {
+			emit(childEvent{Recycle: true})
+			return
+		}
 	}
 	emit(childEvent{Bye: true})
 }
